@@ -43,7 +43,7 @@ func registerShadows() {
 var c11Receivers = map[model.Kind][]model.Value{
 	model.KStr: {
 		model.Str(""), model.Str("a"), model.Str("hello world"), model.Str("héllo"), model.Str("éa"), model.Str("中文字"), model.Str("a😀b"),
-		model.Str("éx"), model.Str("ılık"), model.Str("ſo"), model.Str("ɐb"), model.Str("ɐ"), model.Str("ⱥb"), model.Str("ǆx"), model.Str("  pad\t\n"), model.Str("12"), model.Str("-7"), model.Str("a,b,,c"), model.Str("&lt;b&gt; &amp;"), model.Str("ßx"), model.Str("xx--xx"),
+		model.Str("éx"), model.Str("ılık"), model.Str("ſo"), model.Str("ɐb"), model.Str("ɐ"), model.Str("ⱥb"), model.Str("ǆx"), model.Str("  pad\t\n"), model.Str("12"), model.Str("-7"), model.Str("a,b,,c"), model.Str("&lt;b&gt; &amp;"), model.Str("ßx"), model.Str("xx--xx"), model.Str("abc\uFFFD"), model.Str("\uFFFD"), model.Str("\uFFFDx\uFFFD"), model.Str("x\U0010FFFF"),
 	},
 	model.KArr: {
 		model.Arr(), model.Arr(model.Int(1)), model.Arr(model.Int(1), model.Int(2), model.Int(3)), model.Arr(model.Str("b"), model.Str("a"), model.Str("c"), model.Str("a")),
@@ -440,6 +440,17 @@ func init() {
 			secs = append(secs, core.Section{Name: "contains-empty-arrays", Exhaustive: true, N: len(empties) * len(empties),
 				Run: func(c *core.Ctx, i int) {
 					x, y := empties[i/len(empties)], empties[i%len(empties)]
+					// every array built-in gives on an empty array what it gives on the literal []
+					if x == y {
+						for _, call := range []string{"len()", "join(\"-\")", "rand()", "reverse()", "slice(0)", "slice(1, 2)", "shuffle()", "contains(1)", "append(1)", "prepend(1)", "append(1).len()", "reverse().len()", "rand() ? 1 : 0", "slice(0).rand()"} {
+							lit := evalString(c, "<{{ []."+call+" }}>", nil)
+							got := evalString(c, "<{{ ("+x+")."+call+" }}>", map[string]any{"e": []int{}, "n": []int(nil)})
+							c.Nontrivial(x + "." + call)
+							if !got.Panicked && !lit.Panicked && (got.Out != lit.Out || (got.Err == nil) != (lit.Err == nil)) {
+								c.Violation("contract:empty-array:"+call, fmt.Sprintf("(%s).%s gave %s, on the literal [] it gives %s", x, call, got.Describe(), lit.Describe()), map[string]any{"source": "{{ (" + x + ")." + call + " }}"})
+							}
+						}
+					}
 					for _, tc := range []struct{ src, want string }{
 						{"{{ [" + x + "].contains(" + y + ") }}", "1"},
 						{"{{ [1, " + x + ", \"s\"].contains(" + y + ") }}", "1"},
